@@ -369,18 +369,111 @@ fn zst_one(rng: &mut Rng) -> Result<(), String> {
     Ok(())
 }
 
+/// Trait impls the line protocol does not call: `Default` of every iterator type (C09: "default-constructed
+/// iterators are empty"), `Default` / `From<[_; N]>` / `FromIterator` / `Extend<&_>` of the collections.
+fn misc(rng: &mut Rng) -> Result<(), String> {
+    use hashbrown::{hash_map, hash_set, hash_table, HashTable};
+    macro_rules! empty_iter {
+        ($name:expr, $it:expr) => {{
+            let mut it = $it;
+            if it.size_hint() != (0, Some(0)) || it.len() != 0 {
+                return Err(format!("default {}: size_hint {:?} len {}", $name, it.size_hint(), it.len()));
+            }
+            if it.next().is_some() || it.next().is_some() {
+                return Err(format!("default {} yields an element", $name));
+            }
+            if $it.fold(0usize, |n, _| n + 1) != 0 || $it.count() != 0 {
+                return Err(format!("default {}: fold / count visit something", $name));
+            }
+        }};
+    }
+    empty_iter!("hash_map::Iter", hash_map::Iter::<u64, u64>::default());
+    empty_iter!("hash_map::IterMut", hash_map::IterMut::<u64, u64>::default());
+    empty_iter!("hash_map::Keys", hash_map::Keys::<u64, u64>::default());
+    empty_iter!("hash_map::Values", hash_map::Values::<u64, u64>::default());
+    empty_iter!("hash_map::ValuesMut", hash_map::ValuesMut::<u64, u64>::default());
+    empty_iter!("hash_map::IntoIter", hash_map::IntoIter::<u64, String>::default());
+    empty_iter!("hash_map::IntoKeys", hash_map::IntoKeys::<u64, String>::default());
+    empty_iter!("hash_map::IntoValues", hash_map::IntoValues::<u64, String>::default());
+    empty_iter!("hash_set::Iter", hash_set::Iter::<u64>::default());
+    empty_iter!("hash_set::IntoIter", hash_set::IntoIter::<String>::default());
+    empty_iter!("hash_table::Iter", hash_table::Iter::<u64>::default());
+    empty_iter!("hash_table::IterMut", hash_table::IterMut::<u64>::default());
+    empty_iter!("hash_table::IntoIter", hash_table::IntoIter::<String>::default());
+    if hash_table::IterHash::<u64>::default().next().is_some() || hash_table::IterHashMut::<u64>::default().next().is_some() {
+        return Err("default IterHash yields an element".into());
+    }
+    // default-constructed collections own nothing
+    let m: HashMap<u64, u64> = HashMap::default();
+    let st: HashSet<u64> = HashSet::default();
+    let t: HashTable<u64> = HashTable::default();
+    if m.capacity() != 0 || st.capacity() != 0 || t.capacity() != 0 || m.allocation_size() != 0 || st.allocation_size() != 0 || t.allocation_size() != 0 || !m.is_empty() || !st.is_empty() || !t.is_empty() {
+        return Err("default() collection is not empty / owns memory".into());
+    }
+    // From<[_; N]>, FromIterator, Extend by reference: last value wins, each key once
+    let n = 1 + rng.below(40);
+    let pairs: Vec<(u64, u64)> = (0..n).map(|i| (rng.below(12), i)).collect();
+    let want: BTreeMap<u64, u64> = pairs.iter().copied().collect();
+    let check_map = |name: &str, m: &HashMap<u64, u64>| -> Result<(), String> {
+        let got: BTreeMap<u64, u64> = m.iter().map(|(k, v)| (*k, *v)).collect();
+        if got != want || m.len() != want.len() || (0..12).any(|k| m.get(&k) != want.get(&k)) {
+            return Err(format!("{} gives {:?}, the reference map is {:?}", name, got, want));
+        }
+        Ok(())
+    };
+    check_map("FromIterator", &pairs.iter().copied().collect::<HashMap<u64, u64>>())?;
+    let mut e1: HashMap<u64, u64> = HashMap::new();
+    e1.extend(pairs.iter());
+    check_map("Extend<&(K,V)>", &e1)?;
+    let mut e2: HashMap<u64, u64> = HashMap::new();
+    e2.extend(pairs.iter().map(|(k, v)| (k, v)));
+    check_map("Extend<(&K,&V)>", &e2)?;
+    let arr = [(3u64, 1u64), (5, 2), (3, 9), (7, 4)];
+    let fm: HashMap<u64, u64> = HashMap::from(arr);
+    if fm.len() != 3 || fm.get(&3) != Some(&9) || fm.get(&5) != Some(&2) || fm.get(&7) != Some(&4) {
+        return Err("HashMap::from([..]) disagrees with inserting the pairs in order".into());
+    }
+    let keys: Vec<u64> = pairs.iter().map(|p| p.0).collect();
+    let wantk: BTreeSet<u64> = keys.iter().copied().collect();
+    let s1: HashSet<u64> = keys.iter().copied().collect();
+    let mut s2: HashSet<u64> = HashSet::new();
+    s2.extend(keys.iter());
+    let s3: HashSet<u64> = HashSet::from([4u64, 4, 2, 9, 2]);
+    for (name, s) in [("FromIterator", &s1), ("Extend<&T>", &s2)] {
+        let got: BTreeSet<u64> = s.iter().copied().collect();
+        if got != wantk || s.len() != wantk.len() {
+            return Err(format!("HashSet {} gives {:?}, the reference set is {:?}", name, got, wantk));
+        }
+    }
+    if s3.len() != 3 || !s3.contains(&4) || !s3.contains(&2) || !s3.contains(&9) {
+        return Err("HashSet::from([..]) disagrees with inserting the elements".into());
+    }
+    // IntoIterator for references and for &mut
+    let mut mm = fm.clone();
+    let mut sum = 0;
+    for (_, v) in &mut mm {
+        *v += 1;
+        sum += *v;
+    }
+    if sum != 9 + 2 + 4 + 3 || (&mm).into_iter().count() != 3 || (&s3).into_iter().count() != 3 {
+        return Err("IntoIterator for &mut HashMap / &HashMap / &HashSet disagrees with iter_mut / iter".into());
+    }
+    Ok(())
+}
+
 pub fn run(seed: u64, count: usize, prefix: &str) {
     use std::io::Write;
     let mut ops = std::io::BufWriter::new(std::fs::File::create(format!("{}.ops", prefix)).unwrap());
     let mut real = std::io::BufWriter::new(std::fs::File::create(format!("{}.real", prefix)).unwrap());
     for i in 0..count {
-        for (kind, tag) in [("xhash-sets", "XHASH"), ("xhash-maps", "XHASH"), ("zst", "ZST")] {
+        for (kind, tag) in [("xhash-sets", "XHASH"), ("xhash-maps", "XHASH"), ("zst", "ZST"), ("misc", "MISC")] {
             let mut rng = Rng::new(crate::tape::mix3(seed, i as u64, kind.len() as u64));
             let id = format!("scn extras-{}-{}-{}", kind, seed, i);
             writeln!(ops, "{}", id).unwrap();
             let r = std::panic::catch_unwind(std::panic::AssertUnwindSafe(|| match kind {
                 "xhash-sets" => xhash_sets(&mut rng),
                 "xhash-maps" => xhash_maps(&mut rng),
+                "misc" => misc(&mut rng),
                 _ => zst_one(&mut rng),
             }));
             let verdict = match r {
